@@ -3,7 +3,7 @@
      {"e":"new"|"open"|"close"|"delete","s":s}
      {"e":"notif","s":s,"ok":b,"reached":[..],"pending":n}
      {"e":"bcast","count":n,"reached":[..]}      {"e":"filtered","f":[..],"count":n,"reached":[..]}
-     {"e":"sreq_start","s":s,"r":r,"reached":[..],"pending":n}   {"e":"answer","s":p,"r":r}
+     {"e":"sreq_start","s":s,"r":r,"id":"auto"|"x","reached":[..],"pending":n}   {"e":"answer","s":p,"r":r}
      {"e":"sreq_return","s":s,"r":r,"from":p,"pending":n}        {"e":"sreq_cancel","s":s,"r":r,"from":"error","pending":n}
      {"e":"cfg"} starts a new walk.
    Every event must be the Push action of the same name with the observed values as parameters.  *)
@@ -23,6 +23,7 @@ TInit == Init /\ l = 1
 TCfg == /\ IsEvent("cfg")
         /\ made' = 0 /\ live' = {} /\ open' = {}
         /\ rstate' = [r \in Req |-> "unused"] /\ rsess' = [r \in Req |-> None] /\ rfrom' = [r \in Req |-> None]
+        /\ rid' = [r \in Req |-> "none"]
 TNew == IsEvent("new") /\ NewSession(Ev.s)
 TOpen == IsEvent("open") /\ OpenStream(Ev.s)
 TClose == IsEvent("close") /\ CloseStream(Ev.s)
@@ -31,9 +32,9 @@ TNotif == /\ IsEvent("notif") /\ SendNotification(Ev.s, Ev.ok)
           /\ ToSet(Ev.reached) = (IF Ev.ok THEN {Ev.s} ELSE {})       \* on the addressee's stream, on no other
 TBcast == IsEvent("bcast") /\ Broadcast(ToSet(Ev.reached), Ev.count)
 TFiltered == IsEvent("filtered") /\ SendFiltered(ToSet(Ev.f), ToSet(Ev.reached), Ev.count)
-TSReqStart == /\ IsEvent("sreq_start") /\ SReqStart(Ev.s, Ev.r)
+TSReqStart == /\ IsEvent("sreq_start") /\ SReqStart(Ev.s, Ev.r, Ev.id)
               /\ ToSet(Ev.reached) = {Ev.s} /\ PendingOK
-TAnswer == IsEvent("answer") /\ \E a \in BOOLEAN : ClientAnswer(Ev.s, Ev.r, a)
+TAnswer == IsEvent("answer") /\ \E q \in Req \cup {None} : ClientAnswer(Ev.s, Ev.r, q)
 TSReqReturn == IsEvent("sreq_return") /\ Ev.from \in Sess /\ SReqReturn(Ev.s, Ev.r, Ev.from) /\ PendingOK
 TSReqCancel == IsEvent("sreq_cancel") /\ Ev.from = "error" /\ SReqCancel(Ev.s, Ev.r) /\ PendingOK
 
